@@ -15,6 +15,7 @@ from exabgp.bgp.message.notification import Notify
 from exabgp.bgp.message.update.attribute.sr.srv6.l2service import Srv6L2Service
 from exabgp.bgp.message.update.attribute.sr.srv6.l3service import Srv6L3Service
 from exabgp.bgp.message.update.attribute.sr.srv6.generic import GenericSrv6ServiceDataSubSubTlv
+from exabgp.util import first_of_each_key
 from exabgp.util.types import Buffer
 
 
@@ -149,7 +150,7 @@ class Srv6SidInformation:
         unknown = [t.json() for t in self.subsubtlvs if isinstance(t, GenericSrv6ServiceDataSubSubTlv)]
         if unknown:
             members.append('"unknown-sub-sub-tlvs": [ {} ]'.format(', '.join(unknown)))
-        content: str = ', '.join(members)
+        content: str = ', '.join(first_of_each_key(members))
         if content:
             s += ', {}'.format(content)
         s += ' }'
